@@ -1,8 +1,10 @@
 package main
 
 import (
+	"encoding/json"
 	"fmt"
 	"os"
+	"os/exec"
 	"path/filepath"
 	"sort"
 	"strings"
@@ -99,6 +101,9 @@ func runThorough(def PropertyDef, rep *Report, repo string, extra map[string]any
 		results = append(results, res)
 	}
 	lockCache.la, lockCache.c = nil, nil
+	// (c) replay the stored sub-agent changes of this property, and the benign refactorings
+	replayStored(def, rep, repo, extra)
+	lockCache.la, lockCache.c = nil, nil
 	sort.Slice(results, func(i, j int) bool { return results[i].ID < results[j].ID })
 	extra["seeded_variants"] = results
 	extra["seeds_fired"] = fired
@@ -124,4 +129,174 @@ func verdictMultiset(r *Report) string {
 	}
 	sort.Strings(ks)
 	return strings.Join(ks, " ")
+}
+
+// ---- replay of stored patches ------------------------------------------------------------------------
+
+// patchedFiles applies a unified diff to copies of the files it touches (taken from
+// repo) in a scratch directory and returns path-in-repo -> patched content. The
+// repository itself is not touched.
+func patchedFiles(repo, patch string) (map[string][]byte, error) {
+	data, err := os.ReadFile(patch)
+	if err != nil {
+		return nil, err
+	}
+	var files []string
+	for _, line := range strings.Split(string(data), "\n") {
+		if strings.HasPrefix(line, "+++ b/") {
+			files = append(files, strings.TrimPrefix(line, "+++ b/"))
+		}
+	}
+	if len(files) == 0 {
+		return nil, fmt.Errorf("no files in patch")
+	}
+	tmp, err := os.MkdirTemp("", "carlint-patch")
+	if err != nil {
+		return nil, err
+	}
+	defer os.RemoveAll(tmp)
+	for _, f := range files {
+		src, err := os.ReadFile(filepath.Join(repo, f))
+		if err != nil {
+			if os.IsNotExist(err) {
+				continue // file created by the patch
+			}
+			return nil, err
+		}
+		if err := os.MkdirAll(filepath.Dir(filepath.Join(tmp, f)), 0o755); err != nil {
+			return nil, err
+		}
+		if err := os.WriteFile(filepath.Join(tmp, f), src, 0o644); err != nil {
+			return nil, err
+		}
+	}
+	cmd := exec.Command("git", "apply", "--unsafe-paths", "--directory="+tmp, patch)
+	cmd.Dir = tmp
+	cmd.Env = append(os.Environ(), "GIT_CEILING_DIRECTORIES=/", "GIT_DIR=/nonexistent")
+	if out, err := cmd.CombinedOutput(); err != nil {
+		// fall back to patch(1)-like application from inside the directory
+		cmd2 := exec.Command("git", "apply", patch)
+		cmd2.Dir = tmp
+		cmd2.Env = append(os.Environ(), "GIT_CEILING_DIRECTORIES=/", "GIT_DIR=/nonexistent")
+		if out2, err2 := cmd2.CombinedOutput(); err2 != nil {
+			return nil, fmt.Errorf("does not apply to the current tree: %s %s", firstLine(string(out)), firstLine(string(out2)))
+		}
+	}
+	res := map[string][]byte{}
+	for _, f := range files {
+		b, err := os.ReadFile(filepath.Join(tmp, f))
+		if err != nil {
+			return nil, err
+		}
+		res[filepath.Join(repo, f)] = b
+	}
+	return res, nil
+}
+
+type storedResult struct {
+	Name   string `json:"change"`
+	Status string `json:"status"`
+	By     string `json:"reported_as,omitempty"`
+}
+
+func replayStored(def PropertyDef, rep *Report, repo string, extra map[string]any) {
+	verif := verifDir
+	baseClean := true
+	for _, o := range rep.Obs {
+		if o.Verdict == Violated || o.Verdict == Undecided {
+			baseClean = false
+		}
+	}
+	// seeded changes of this property
+	var res []storedResult
+	det, lost, skip := 0, 0, 0
+	dirs, _ := filepath.Glob(filepath.Join(verif, "seeded", def.ID+"-*"))
+	sort.Strings(dirs)
+	for _, d := range dirs {
+		name := filepath.Base(d)
+		var meta struct {
+			Own bool `json:"detected_by_own_property_check"`
+		}
+		if b, err := os.ReadFile(filepath.Join(d, "meta.json")); err == nil {
+			json.Unmarshal(b, &meta)
+		}
+		ov, err := patchedFiles(repo, filepath.Join(d, "patch.diff"))
+		if err != nil {
+			res = append(res, storedResult{Name: name, Status: "skipped: " + err.Error()})
+			skip++
+			continue
+		}
+		c2, err := Load(LoadOpts{Repo: repo, Overlay: ov})
+		if err != nil {
+			res = append(res, storedResult{Name: name, Status: "skipped: variant does not load: " + firstLine(err.Error())})
+			skip++
+			continue
+		}
+		lockCache.la, lockCache.c = nil, nil
+		r2 := runRules(def, c2)
+		hit := ""
+		for _, o := range r2.Obs {
+			if o.Verdict == Violated || o.Verdict == Undecided {
+				hit = o.Rule + "@" + o.Key
+				break
+			}
+		}
+		switch {
+		case hit != "":
+			res = append(res, storedResult{Name: name, Status: "detected", By: hit})
+			det++
+		case !meta.Own:
+			res = append(res, storedResult{Name: name, Status: "not detected by this property's check (recorded as such in its meta.json)"})
+		default:
+			res = append(res, storedResult{Name: name, Status: "LOST"})
+			lost++
+			if baseClean {
+				rep.Infra = append(rep.Infra, "stored seeded change "+name+" used to be detected by this check and no longer is")
+			}
+		}
+	}
+	extra["stored_seeded_changes"] = res
+	extra["stored_detected"] = det
+	extra["stored_lost"] = lost
+	extra["stored_skipped"] = skip
+	// benign refactorings: must stay silent (only meaningful when the base tree is clean)
+	var bres []storedResult
+	nb, alarms := 0, 0
+	if baseClean {
+		files, _ := filepath.Glob(filepath.Join(verif, "benign", "*.diff"))
+		sort.Strings(files)
+		for _, f := range files {
+			name := filepath.Base(f)
+			ov, err := patchedFiles(repo, f)
+			if err != nil {
+				bres = append(bres, storedResult{Name: name, Status: "skipped: " + err.Error()})
+				continue
+			}
+			c2, err := Load(LoadOpts{Repo: repo, Overlay: ov})
+			if err != nil {
+				bres = append(bres, storedResult{Name: name, Status: "skipped: does not load: " + firstLine(err.Error())})
+				continue
+			}
+			lockCache.la, lockCache.c = nil, nil
+			r2 := runRules(def, c2)
+			nb++
+			hit := ""
+			for _, o := range r2.Obs {
+				if o.Verdict == Violated || o.Verdict == Undecided {
+					hit = o.Rule + "@" + o.Key + ": " + o.Detail
+					break
+				}
+			}
+			if hit != "" {
+				alarms++
+				bres = append(bres, storedResult{Name: name, Status: "FALSE ALARM", By: hit})
+				rep.Infra = append(rep.Infra, "false alarm on the behaviour-preserving refactoring "+name+": "+hit)
+			}
+		}
+	}
+	extra["benign_refactorings_replayed"] = nb
+	extra["benign_false_alarms"] = alarms
+	if len(bres) > 0 {
+		extra["benign_details"] = bres
+	}
 }
